@@ -444,34 +444,68 @@ def oracle_case(cname, cls, h, s, y, idxs, big_h, big_s, big_y, report, cl):
             report("guard:SR1Update", f"{tag}: |s.z| = {lhs:.6g}, 1e-8 |s||z| = {rhs:.6g} but conditions_met = {cm}")
 
 
-def degenerate_cause(h, h_inv, s, y, inverse=False):
-    """Which exactly-vanishing quantity makes the input degenerate for the direct (resp. inverse) form, in exact
-    rational arithmetic on the floats: the first that applies of  s=0, y=0, y.s=0, sHs=0, y=Hs, (y-Hs).s=0
-    (inverse form:  y=0, y.s=0, (s-Binv.y).y=0, s=0), else 'none'."""
-    if inverse:
-        t = [F(a) - b for a, b in zip(s, fmatvec(h_inv, y))]
-        if not any(y):
-            return "y=0"
-        if fdot(s, y) == 0:
-            return "y.s=0"
-        if sum(a * F(b) for a, b in zip(t, y)) == 0:
-            return "(s-Binv.y).y=0"
-        return "s=0" if not any(s) else "none"
+# The exactly-vanishing quantities that are DIVISORS of each class's formula, in the order used to name a case
+# (the first that holds).  Quantities that are irrelevant for a class never name its key (e.g. y = 0 for Bofill).
+RELEVANT = {
+    "BFGSUpdate": ["s=0", "y.s=0", "sHs=0"],
+    "BFGSPDUpdate": ["s=0", "y.s=0", "sHs=0"],
+    "BFGSDampedUpdate": ["s=0", "sHs=0", "sHs=s.y", "y.s=0"],
+    "SR1Update": ["(y-Hs).s=0"],
+    "NullUpdate": [],
+    "BofillUpdate": ["s=0", "(y-Hs).s=0"],
+    "FlowchartUpdate": ["s=0", "sHs=0", "y.s=0", "(y-Hs).s=0"],
+    "BFGSSR1Update": ["s=0", "y.s=0", "sHs=0", "(y-Hs).s=0"],
+}
+RELEVANT_INV = {"SR1Update": ["y=0", "(s-Binv.y).y=0"], "BFGSUpdate": ["y.s=0"], "BFGSPDUpdate": ["y.s=0"]}
+
+
+def degenerate_cause(cname, h, h_inv, s, y, inverse=False):
+    """Name of the vanishing divisor (exact rational arithmetic on the floats) that makes the input degenerate
+    for the direct (resp. inverse) form of class `cname`; 'other' if none of the class's divisors vanishes."""
     hs = fmatvec(h, s)
     z = [F(a) - b for a, b in zip(y, hs)]
-    if not any(s):
-        return "s=0"
-    if not any(y):
-        return "y=0"
-    if fdot(s, y) == 0:
-        return "y.s=0"
-    if fdot(s, hs) == 0:
-        return "sHs=0"
-    if not any(z):
-        return "y=Hs"
-    if sum(a * F(b) for a, b in zip(z, s)) == 0:
-        return "(y-Hs).s=0"
-    return "none"
+    t = [F(a) - b for a, b in zip(s, fmatvec(h_inv, y))]
+    sy, shs = fdot(s, y), fdot(s, hs)
+    flags = {"s=0": not any(s), "y=0": not any(y), "y.s=0": sy == 0, "sHs=0": shs == 0, "sHs=s.y": shs == sy,
+             "(y-Hs).s=0": sum(a * F(b) for a, b in zip(z, s)) == 0,
+             "(s-Binv.y).y=0": sum(a * F(b) for a, b in zip(t, y)) == 0}
+    for lab in (RELEVANT_INV.get(cname, []) if inverse else RELEVANT[cname]):
+        if flags[lab]:
+            return lab
+    return "other"
+
+
+def fixed_degenerate_inputs():
+    """The complete, seed-independent enumeration: every vanishing quantity x n in {1,2,3} x definite / indefinite H,
+    exact dyadic entries.  Random degenerate cases may only produce keys this enumeration produces as well."""
+    out = []
+    for n in (1, 2, 3):
+        e = np.eye(n)
+        hs_ = {"pd": np.diag([1.0, 2.0, 1.5][:n]) + 0.25 * (np.ones((n, n)) - e),
+               "nd": -(np.diag([1.0, 2.0, 1.5][:n]) + 0.25 * (np.ones((n, n)) - e)),
+               "indef": np.diag([1.0, -1.0, 0.5][:n]) if n > 1 else np.zeros((1, 1))}
+        for hn, h in hs_.items():
+            B = 2.0 * e - 0.25 * h
+            s1 = e[0] * 0.5
+            cases = {"s=0": (np.zeros(n), e[0] * 0.5), "s=0,y=0": (np.zeros(n), np.zeros(n)), "y=0": (s1, np.zeros(n)),
+                     "y=Hs": (s1, h @ s1), "s=By": (B @ (e[0] * 0.5), e[0] * 0.5)}
+            if n >= 2:
+                cases["y.s=0"] = (e[0] * 0.5, e[1] * 0.75)
+                cases["(y-Hs).s=0"] = (e[0] * 0.5, h @ (e[0] * 0.5) + e[1] * 0.25)
+                sB = B @ (e[0] * 0.5)
+                w = np.zeros(n)
+                w[1] = 0.25                                   # w orthogonal to y = e0/2
+                cases["(s-By).y=0"] = (sB + w, e[0] * 0.5)
+                if hn == "indef":
+                    sn = e[0] + e[1]                          # s.H.s = 1 - 1 = 0
+                    cases["sHs=0"] = (sn, e[0] * 0.5 + e[1] * 0.25)
+                    cases["sHs=0,y=0"] = (sn, np.zeros(n))
+                    cases["sHs=0,y.s=0"] = (sn, e[0] * 0.5 - e[1] * 0.5)
+            elif hn == "indef":
+                cases["sHs=0"] = (np.array([1.0]), np.array([0.5]))
+            for cn, (s, y) in cases.items():
+                out.append((f"fixed n={n} H={hn} {cn}", h.copy(), np.array(s, dtype=float), np.array(y, dtype=float)))
+    return out
 
 
 def degenerate_case(cname, cls, h, s, y, kind, report):
@@ -482,7 +516,7 @@ def degenerate_case(cname, cls, h, s, y, kind, report):
     h_inv = 2.0 * np.eye(n) - 0.25 * h          # exact dyadic symmetric inverse-Hessian guess
     res = run_updater(cls, h, h_inv, s, y, None)
     cm, up, ui = res["conditions_met"], res["updated_h"], res["updated_h_inv"]
-    cause = degenerate_cause(h, h_inv, s, y)
+    cause = degenerate_cause(cname, h, h_inv, s, y)
     tag = f"{cname}(n={n}, {kind}: {cause})"
     key = f"degenerate-step:{cname}|{cause}"
     if isinstance(cm, tuple):
@@ -496,10 +530,10 @@ def degenerate_case(cname, cls, h, s, y, kind, report):
                         f"(division by zero) instead of leaving the Hessian unchanged")
         elif isinstance(ui, tuple):
             if ui[1] != "LinAlgError" or cname in CLOSED_INV:        # a singular update has no inverse: not a defect
-                report(f"degenerate-step:{cname}|{degenerate_cause(h, h_inv, s, y, True)}|inverse",
+                report(f"degenerate-step:{cname}|{degenerate_cause(cname, h, h_inv, s, y, True)}|inverse",
                        f"{tag}: conditions_met is True, updated_h is finite but updated_h_inv raised {ui[1]}")
         elif not finite(ui):
-            report(f"degenerate-step:{cname}|{degenerate_cause(h, h_inv, s, y, True)}|inverse",
+            report(f"degenerate-step:{cname}|{degenerate_cause(cname, h, h_inv, s, y, True)}|inverse",
                    f"{tag}: conditions_met is True, updated_h is finite but updated_h_inv has non-finite "
                                      f"entries (division by zero) instead of leaving the inverse Hessian unchanged")
 
@@ -724,7 +758,15 @@ def impl_oracles(ctx, classes, full, only=None):
         ctx.count("impl-int-dtype", (n, big, k))
         int_dtype_case(classes, hi, s, y, idxs, make_report({"kind": "int-dtype", "h": hi.tolist(), "s": s.tolist(),
                                                               "y": y.tolist(), "idxs": idxs}))
-    # degenerate step information
+    # degenerate step information: (1) the fixed, complete enumeration (same keys on every run / seed) ...
+    for tagf, h, s, y in fixed_degenerate_inputs():
+        for cname, cls in classes.items():
+            ctx.count("impl-degenerate-fixed", (cname, tagf), nontrivial=(cname != "NullUpdate"),
+                      sample={"class": cname, "case": tagf})
+            rep = {"kind": "impl-oracle", "degenerate": True, "class": cname, "h": h.tolist(), "s": s.tolist(),
+                   "y": y.tolist(), "kind_sy": tagf}
+            degenerate_case(cname, cls, h, s, y, tagf, make_report(rep))
+    # ... (2) random degenerate inputs: they classify into the same keys
     for n in ([1, 2, 3, 7, 30] if full else [1, 2, 5]):
         for hk in ("definite", "indefinite"):
             for vk in DEGENERATE:
